@@ -16,9 +16,40 @@ use ops::{alphabet, history_strategy, op_strategy, reduced_alphabet, Op};
 
 const CLASSES: &[&str] = &["undo_err", "undo_panic", "undo_mismatch", "redo_err", "redo_panic", "redo_mismatch", "redo_not_cleared", "undo_len"];
 
-fn cases(avoid: Vec<String>, flip_w: u32) -> BoxedStrategy<Case> {
+/// Open findings that need a design decision: their precondition is not generated at all (in no part), because the
+/// failures they cause show up under the name of whatever innocent operation comes later.
+const PRECONDITIONS: &[(&str, &[&str], &str)] = &[
+    ("C08-stamp-layer-down", &["StampLayerDown"], "no stamp_layer_down"),
+    ("C08-insert-delete-row-column-undo", &["InsertRow", "DeleteRow", "InsertColumn", "DeleteColumn"], "no insert/delete row/column"),
+    ("C08-alpha-lock-undo", &[], "no layer with is_alpha_channel_locked (initial documents and update_layer_properties)"),
+    ("C08-shrunk-layer-hidden-content", &["SetLayerSize"], "no set_layer_size (the only operation that can leave content beyond a layer's size)"),
+    ("C08-change-font-slot", &["ChangeFontSlot"], "no change_font_slot"),
+];
+
+#[derive(Clone, Default)]
+struct Steer {
+    /// kinds removed from every alphabet
+    kinds: Vec<String>,
+    no_alpha_lock: bool,
+}
+
+fn clear_alpha_lock(op: &mut Op) {
+    if let Op::UpdateLayerProperties { p, .. } = op {
+        p.alpha_locked = false;
+    }
+}
+
+fn cases(avoid: Vec<String>, flip_w: u32, steer: &Steer) -> BoxedStrategy<Case> {
+    let no_alpha_lock = steer.no_alpha_lock;
     (doc_strategy(), history_strategy(&avoid, flip_w), prop::collection::vec(any::<u16>(), 0..=4), any::<u16>(), op_strategy(&avoid, 0), prop::bool::weighted(0.3))
-        .prop_map(|(doc, ops, walk, k, extra, stepwise)| Case { doc, ops, walk, k, extra, stepwise })
+        .prop_map(move |(mut doc, mut ops, walk, k, mut extra, stepwise)| {
+            if no_alpha_lock {
+                doc.layers.iter_mut().for_each(|l| l.alpha_locked = false);
+                ops.iter_mut().for_each(clear_alpha_lock);
+                clear_alpha_lock(&mut extra);
+            }
+            Case { doc, ops, walk, k, extra, stepwise }
+        })
         .boxed()
 }
 
@@ -70,38 +101,71 @@ fn main() {
     eng.assume("SAUCE records handed to update_sauce_data carry the current buffer size (Buffer::set_size keeps sauce.buffer_size in step, so a record with a foreign size is outside the editor's own invariant)");
     eng.assume("release profile semantics (overflow-checks off, debug-assertions off); an operation that panics or returns Err ends the history and is not a C08 violation");
 
-    // culprit operations confirmed as open known findings are removed from the alphabet of the bulk and flip_histories parts
-    // (finding ids c08.culprit.<Kind> or c08.culprit.<Kind>.<class>)
-    let mut avoid: Vec<String> = Vec::new();
-    let mut total_w = 0u32;
-    let mut avoided_w = 0u32;
-    for (w, kind, _) in alphabet(0) {
-        total_w += w;
-        let hit = eng.finding_open(&format!("c08.culprit.{kind}")) || CLASSES.iter().any(|c| eng.finding_open(&format!("c08.culprit.{kind}.{c}")));
-        if hit {
-            avoid.push(kind.to_string());
-            avoided_w += w;
+    // (1) preconditions of open design-decision findings: generated in no part
+    let mut steer = Steer::default();
+    let mut steered = Vec::new();
+    for (id, kinds, what) in PRECONDITIONS {
+        if eng.finding_open(id) {
+            steer.kinds.extend(kinds.iter().map(|k| k.to_string()));
+            if *id == "C08-alpha-lock-undo" {
+                steer.no_alpha_lock = true;
+            }
+            steered.push(json!({"finding": id, "not_generated": what, "kinds": kinds}));
         }
     }
+    // (2) culprit operations of other open findings (ids c08.culprit.<Kind> or c08.culprit.<Kind>.<class>) are removed
+    // from the alphabet of the bulk and flip_histories parts only; exhaustive_short and histories keep exercising them
+    let mut avoid_bulk: Vec<String> = steer.kinds.clone();
+    let mut culprits: Vec<String> = Vec::new();
+    let (mut total_w, mut steered_w, mut bulk_w) = (0u32, 0u32, 0u32);
+    for (w, kind, _) in alphabet(0) {
+        total_w += w;
+        if steer.kinds.iter().any(|k| k == kind) {
+            steered_w += w;
+            bulk_w += w;
+            continue;
+        }
+        let hit = eng.finding_open(&format!("c08.culprit.{kind}")) || CLASSES.iter().any(|c| eng.finding_open(&format!("c08.culprit.{kind}.{c}")));
+        if hit {
+            avoid_bulk.push(kind.to_string());
+            culprits.push(kind.to_string());
+            bulk_w += w;
+        }
+    }
+    let mut alpha = reduced_alphabet();
+    let r_full = alpha.len();
+    alpha.retain(|o| !steer.kinds.iter().any(|k| *k == o.kind()));
     eng.extra(
         "steered_away",
-        json!({"parts": "bulk, flip_histories", "kinds_removed_from_alphabet": avoid, "share_of_generated_operations": avoided_w as f64 / total_w as f64,
-               "note": "the parts exhaustive_short and histories keep the full alphabet; failures of known culprits are counted there as excluded_known"}),
+        json!({
+            "open_design_decision_findings": steered,
+            "all_parts": {
+                "kinds_removed_from_every_alphabet": steer.kinds,
+                "share_of_generated_operations_removed": steered_w as f64 / total_w as f64,
+                "reduced_alphabet_operations_removed": r_full - alpha.len(),
+                "reduced_alphabet_operations_left": alpha.len(),
+                "alpha_locked_layers_removed": steer.no_alpha_lock,
+                "expected_share_of_documents_changed_by_that": if steer.no_alpha_lock { 0.19 } else { 0.0 },
+                "expected_share_of_update_layer_properties_changed_by_that": if steer.no_alpha_lock { 0.2 } else { 0.0 },
+            },
+            "bulk_and_flip_histories_only": {"culprit_kinds_removed": culprits, "share_of_generated_operations_removed_in_total": bulk_w as f64 / total_w as f64},
+            "note": "shares are weights of the generator's alphabet (static); replay and witness files are never steered",
+        }),
     );
     eng.extra("alphabet_kinds", json!(alphabet(1).iter().map(|(_, k, _)| *k).collect::<Vec<_>>()));
 
-    let alpha = reduced_alphabet();
     let alpha3: Vec<Op> = alpha.iter().filter(|o| !matches!(o, Op::FlipX | Op::FlipY)).cloned().collect();
     let (r, r3) = (alpha.len() as u64, alpha3.len() as u64);
     let per_doc = if eng.is_thorough() { r + r * r + r3 * r3 * r3 } else { r + r * r };
     eng.extra("reduced_alphabet", json!({"operations": r, "operations_in_length_3_histories": r3, "documents": 2, "max_length": if eng.is_thorough() { 3 } else { 2 }}));
     eng.enumerated(PartCfg::new("exhaustive_short", 0, 0).exhaustive(true), 2 * per_doc, move |i| enumerated_case(i, per_doc, &alpha, &alpha3), check);
 
-    eng.generated_min(PartCfg::new("histories", 60_000, 600_000).shrink_budget(1200), || cases(Vec::new(), 0), check, |_| "-".to_string(), minimize);
-    let av = avoid.clone();
-    eng.generated_min(PartCfg::new("bulk", 240_000, 3_000_000).shrink_budget(1200), move || cases(av.clone(), 0), check, |_| "-".to_string(), minimize);
+    let (st, av) = (steer.clone(), steer.kinds.clone());
+    eng.generated_min(PartCfg::new("histories", 60_000, 600_000).shrink_budget(1200), move || cases(av.clone(), 0, &st), check, |_| "-".to_string(), minimize);
+    let (st, av) = (steer.clone(), avoid_bulk.clone());
+    eng.generated_min(PartCfg::new("bulk", 240_000, 3_000_000).shrink_budget(1200), move || cases(av.clone(), 0, &st), check, |_| "-".to_string(), minimize);
     // flip_x / flip_y rebuild the glyph flip tables of every font on each call (25-90 ms): own, smaller part
-    let av = avoid.clone();
-    eng.generated_min(PartCfg::new("flip_histories", 1_200, 20_000).shrink_budget(100), move || cases(av.clone(), 25), check, |_| "-".to_string(), minimize);
+    let (st, av) = (steer.clone(), avoid_bulk.clone());
+    eng.generated_min(PartCfg::new("flip_histories", 1_200, 20_000).shrink_budget(100), move || cases(av.clone(), 25, &st), check, |_| "-".to_string(), minimize);
     eng.run();
 }
